@@ -284,6 +284,37 @@ def evaluate(case):
                 fail("vanishing-output", lab + ": the propagated signal vanishes")
             if np.linalg.norm(s0) == 0 and e_in > 0 and pname in ("x", "y", "mixed") and e_out == 0:
                 fail("vanishing-output", lab + ": the propagated signal vanishes (s/p unit vectors are zero for an exactly vertical ray)")
+        # the same path object is re-used for signals on other time grids (same length, other step; other length): every call
+        # must be the filter for *its* frequencies, whatever was propagated before (history: propagate, propagate, propagate)
+        for step_mul, nn in ((16.0, n), (1.0, n), (0.25, n), (1.0, n // 2)):
+            for interp in ((None, 0.1) if accepts_interp else (None,)):
+                tt = (np.arange(nn) + 7) * DT * step_mul
+                vv = sigs["two_tone"][:nn].copy()
+                kw = {} if interp is None else {"attenuation_interpolation": interp}
+                try:
+                    (o_s, o_p), _ = path.propagate(Signal(tt, vv.copy(), Signal.Type.field), polarization=pols["mixed"], **kw)
+                except Exception as e:
+                    if src.exception_origin(e) != "library":
+                        raise
+                    fail("exception", "solution %d re-use with dt x %g: %s" % (si, step_mul, src.short_tb(e)))
+                    continue
+                nev += 1
+                ff = dft.freqs(2 * nn, DT * step_mul)
+                Aff = np.asarray(path.attenuation(np.abs(ff)), float)
+                X = dft.dft(np.concatenate((vv, np.zeros(nn))))
+                e_s = np.real(dft.idft(Aff * np.where(ff < 0, np.conj(r_s), r_s) * X))[:nn] * float(pols["mixed"] @ s0)
+                e_p = np.real(dft.idft(Aff * np.where(ff < 0, np.conj(r_p), r_p) * X))[:nn] * float(pols["mixed"] @ p0v)
+                scale = float(np.max(np.abs(vv))) * float(np.linalg.norm(pols["mixed"]))
+                if interp is None:
+                    slack = 1e-10 * scale
+                else:
+                    fpos = np.abs(ff[ff != 0])
+                    slack = (float(np.max(np.asarray(path.attenuation(fpos * 10 ** -interp), float) - np.asarray(path.attenuation(fpos * 10 ** interp), float))) + 1e-9) \
+                        * float(np.sum(np.abs(vv))) * float(np.linalg.norm(pols["mixed"]))
+                d = max(float(np.max(np.abs(np.asarray(o_s.values) - e_s))), float(np.max(np.abs(np.asarray(o_p.values) - e_p))))
+                if not d <= slack or not np.array_equal(o_s.times, tt + tof):
+                    fail("reused-path", "solution %d: after earlier propagate calls, a signal with N=%d, dt x %g, interpolation %r comes out %.3g away from "
+                                        "its own filter (allowed %.3g)" % (si, nn, step_mul, interp, d, slack))
         # linearity in the signal and in the polarization (no interpolation)
         if ("delta1", "x") in outs and ("two_tone", "x") in outs:
             comb = 2.0 * sigs["delta1"] - 0.5 * sigs["two_tone"]
